@@ -552,6 +552,14 @@ class Ctx:
                 except Inconclusive as e:
                     self.stats.complete = False
                     self.stats.errors.append(f'inconclusive: {e}')
+                except (HarnessError, KeyboardInterrupt, SystemExit):
+                    raise
+                except Exception as e:  # the harness itself failed: never a pass, never a violation
+                    import traceback
+
+                    self.stats.complete = False
+                    if len(self.stats.errors) < 5:
+                        self.stats.errors.append('harness-error: unexpected exception in harness: ' + ''.join(traceback.format_exception(e))[-1500:])
                 self._prev = self.trail[: self.pos]
         finally:
             CTX = None
